@@ -409,6 +409,7 @@ func main() {
 	out := flag.String("out", "", "output file")
 	propsPath := flag.String("props", "/verif/properties.jsonl", "the properties (their anchor files define the source shape)")
 	shapeOut := flag.String("shape-out", "", "write Orda/Gen/Shape.lean (hashes of the normalised functions of the anchored files) here")
+	facts2Out := flag.String("facts2-out", "", "write Orda/Gen/Facts2.lean (facts that only single model modules use) here")
 	shapeJSON := flag.String("shape-json", "", "write the normalised function texts of the anchored files here (JSON)")
 	writeExpected := flag.String("write-expected", "", "write Expected.lean (the shape the model was written against) here and exit")
 	expectedJSON := flag.String("expected-json", "", "with -write-expected: also write the normalised texts here (JSON)")
@@ -443,6 +444,18 @@ func main() {
 	fmt.Fprintf(&b, "def optionBits : List (String × Nat) := %s\n\n", optionBits(*repo))
 	extra(*repo, &b)
 	b.WriteString("end Orda.Gen\n")
+	if *facts2Out != "" {
+		var fb strings.Builder
+		fb.WriteString("/- GENERATED by tools/gofacts from the current sources of the repository. Do not edit. -/\nimport Orda.Model.TxFlagTypes\nnamespace Orda.Gen\nopen Orda\n\n")
+		fmt.Fprintf(&fb, "/-- where transaction.go touches the success flag of TransactionDatatype -/\ndef txFacts : TxFacts := %s\n\nend Orda.Gen\n", txFacts(*repo))
+		old, _ := os.ReadFile(*facts2Out)
+		if string(old) != fb.String() {
+			if err := os.WriteFile(*facts2Out, []byte(fb.String()), 0644); err != nil {
+				fmt.Println(err)
+				os.Exit(2)
+			}
+		}
+	}
 	if *shapeOut != "" {
 		var sb strings.Builder
 		sb.WriteString("/- GENERATED by tools/gofacts from the current sources of the repository. Do not edit. -/\nnamespace Orda.Gen\n")
